@@ -66,8 +66,14 @@ def _run_base(ctx):
     fid = STR + ':resolve_strategy_inline_recurse'
     fn = repo.func(fid)
     g = CFG(fn)
+    # the merged cell: the local initialised with an empty dict literal that receives keyed stores (name independent)
+    empties = {t.id for n in walk_no_nested(fn) if isinstance(n, ast.Assign) and isinstance(n.value, ast.Dict) and not n.value.keys
+               for t in n.targets if isinstance(t, ast.Name)}
+    # ... and that is inserted as the one new cell: op_addrange(<key>, [<cell>])
+    cellvars = {e.id for c in calls_in(fn, nested=False) if dotted(c.func) == 'op_addrange' and len(c.args) == 2 and isinstance(c.args[1], ast.List)
+                for e in c.args[1].elts if isinstance(e, ast.Name) and e.id in empties}
     stores = [n for n in walk_no_nested(fn) if isinstance(n, ast.Assign) and isinstance(n.targets[0], ast.Subscript)
-              and dotted(n.targets[0].value) == 'cell']
+              and dotted(n.targets[0].value) in cellvars]
     if len(stores) < 5:
         raise AnalysisError('resolve_strategy_inline_recurse: keyed stores into the merged cell not found')
     for st in stores:
